@@ -192,6 +192,32 @@ theorem ty_getAndUpdate {c : Cfg} {pre act : List Val} {s s' : State} {Γ Γ' : 
     · cases ht
   · cases ht
 
+theorem ty_update_set {c : Cfg} {pre act : List Val} {s s' : State} {t : Ty} {Δ : List Ty}
+    (hs : Shape pre act s) (hty : STy act (t :: .bool :: .set t :: Δ)) (h : simple c s .update = some (.ok s')) :
+    ∃ act', Shape pre act' s' ∧ STy act' (.set t :: Δ) := by
+  obtain ⟨ky, r1, rfl, hx1, hx2, h1⟩ := hty.cons_inv
+  obtain ⟨vl, r2, rfl, hy1, hy2, h2⟩ := h1.cons_inv
+  obtain ⟨st, r3, rfl, hz1, hz2, h3⟩ := h2.cons_inv
+  obtain ⟨b, rfl⟩ := inv_bool hy1 hy2
+  obtain ⟨xs, rfl, hnd, hxs⟩ := inv_set hz1 hz2
+  obtain ⟨hp, hs1⟩ := hs.pop3
+  simp only [simple, hp, bind, Except.bind, Option.some.injEq] at h
+  split at h
+  · cases h
+  · match ky, hx2, h with
+    | .atom k, hx2, h =>
+      simp only [pure, Except.pure, Except.ok.injEq] at h
+      subst h
+      have hk : k.ty = t := hx2
+      refine ⟨_, hs1.push _, STy.cons ?_ rfl h3⟩
+      simp only [Val.wt, Bool.and_eq_true, nodupB_iff, List.all_eq_true, beq_iff_eq]
+      cases b
+      · exact ⟨hnd.sublist List.filter_sublist, fun a ha => hxs a (List.mem_filter.mp ha).1⟩
+      · refine ⟨setAdd_nodup hnd, fun a ha => ?_⟩
+        rcases setAdd_mem ha with rfl | ha
+        · exact hk
+        · exact hxs a ha
+
 theorem ty_update {c : Cfg} {pre act : List Val} {s s' : State} {Γ Γ' : List Ty}
     (ht : tySimple c .update Γ = some Γ') (hs : Shape pre act s) (hty : STy act Γ)
     (h : simple c s .update = some (.ok s')) : ∃ act', Shape pre act' s' ∧ STy act' Γ' := by
@@ -210,6 +236,67 @@ theorem ty_update {c : Cfg} {pre act : List Val} {s s' : State} {Γ Γ' : List T
       obtain ⟨rfl, rfl⟩ := hk
       simp only [Option.some.injEq] at ht; subst ht
       exact ty_update_core' true hs hty h
+    · cases ht
+  · split at ht
+    · rename_i hk
+      have hk' := by simpa using hk
+      subst hk'
+      simp only [Option.some.injEq] at ht; subst ht
+      exact ty_update_set hs hty h
+    · cases ht
+  · cases ht
+
+theorem ty_mem_map {c : Cfg} (big : Bool) {pre act : List Val} {s s' : State} {k v : Ty} {Δ : List Ty}
+    (hs : Shape pre act s) (hty : STy act (k :: mapTy big k v :: Δ)) (h : simple c s .mem = some (.ok s')) :
+    ∃ act', Shape pre act' s' ∧ STy act' (.bool :: Δ) := by
+  obtain ⟨ky, r1, rfl, hx1, hx2, h1⟩ := hty.cons_inv
+  obtain ⟨m, r2, rfl, hy1, hy2, h2⟩ := h1.cons_inv
+  obtain ⟨keys, vals, rm, rfl, wf⟩ := inv_map big hy1 hy2
+  obtain ⟨hp, hs1⟩ := hs.pop2
+  simp only [simple, hp, bind, Except.bind, Option.some.injEq] at h
+  cases hg : mapGet c big k v keys vals rm ky false with
+  | error e => simp [hg] at h
+  | ok r =>
+    simp only [hg, pure, Except.pure, Except.ok.injEq] at h
+    subst h
+    exact ⟨_, hs1.push _, STy.cons rfl rfl h2⟩
+
+theorem ty_mem {c : Cfg} {pre act : List Val} {s s' : State} {Γ Γ' : List Ty}
+    (ht : tySimple c .mem Γ = some Γ') (hs : Shape pre act s) (hty : STy act Γ)
+    (h : simple c s .mem = some (.ok s')) : ∃ act', Shape pre act' s' ∧ STy act' Γ' := by
+  simp only [tySimple] at ht
+  split at ht
+  · split at ht
+    · rename_i hk
+      have hk' := by simpa using hk
+      subst hk'
+      simp only [Option.some.injEq] at ht; subst ht
+      obtain ⟨ky, r1, rfl, hx1, hx2, h1⟩ := hty.cons_inv
+      obtain ⟨st, r2, rfl, hy1, hy2, h2⟩ := h1.cons_inv
+      obtain ⟨xs, rfl, _, _⟩ := inv_set hy1 hy2
+      obtain ⟨hp, hs1⟩ := hs.pop2
+      simp only [simple, hp, bind, Except.bind, Option.some.injEq] at h
+      split at h
+      · cases h
+      · match ky, h with
+        | .atom k, h =>
+          simp only [pure, Except.pure, Except.ok.injEq] at h
+          subst h
+          exact ⟨_, hs1.push _, STy.cons rfl rfl h2⟩
+    · cases ht
+  · split at ht
+    · rename_i hk
+      have hk' := by simpa using hk
+      subst hk'
+      simp only [Option.some.injEq] at ht; subst ht
+      exact ty_mem_map false hs hty h
+    · cases ht
+  · split at ht
+    · rename_i hk
+      have hk' := by simpa using hk
+      subst hk'
+      simp only [Option.some.injEq] at ht; subst ht
+      exact ty_mem_map true hs hty h
     · cases ht
   · cases ht
 
@@ -238,6 +325,11 @@ theorem simple_typed {c : Cfg} (ok2 : CfgOk2 c) {pre act : List Val} {s s' : Sta
   | get => exact ty_get ht hs hty h
   | getAndUpdate => exact ty_getAndUpdate ht hs hty h
   | update => exact ty_update ht hs hty h
+  | left t => exact ty_left ht hs hty h
+  | right t => exact ty_right ht hs hty h
+  | emptySet t => exact ty_emptySet ht hs hty h
+  | mem => exact ty_mem ht hs hty h
+  | ifLeft _ _ => simp [simple] at h
   | failwith => simp [simple] at h
   | ifNone _ _ => simp [simple] at h
   | iter _ => simp [simple] at h
